@@ -1,5 +1,6 @@
 import Marwood.Lemmas.TCall
 import Marwood.Lemmas.CompileTail
+import Marwood.Lemmas.StackWFToy
 /-!
 # C04 — calls in tail position run in constant stack space (instruction level)
 
@@ -370,5 +371,138 @@ example :
         Datum.ofList [.sym ['h']]]) with
      | .ok (_, code) => callOps code
      | .error _ => []) = [false, true, true] := by decide +kernel
+
+/-! ## T04.5: loops of tail calls run in constant stack, for ARBITRARY verified bodies
+(WF-stack, `Lemmas/StackWF*.lean`)
+
+The hypothesis the one-iteration theorem `tail_call_iteration` left open — that the code between
+ENTER and the next TCALL leaves the frame header intact — is discharged for all code the bytecode
+verifier accepts, under the heap laws `CodeLaws`. -/
+
+/-- at every TCALL (and RET) executed in the frame that starts at `D.base`, after arbitrary verified
+    code has run since the frame was created (nested calls that return, tail calls in nested frames,
+    builtins, `apply`/`eval`/`call/cc` re-dispatch; no continuation invoked, the frame itself not
+    returned from), the header cells `bp+2 … bp+4` are the ones the CALL/ENTER that created the
+    frame wrote: the description `D` of the frame is unchanged. -/
+theorem frame_header_intact_at_tcall {ops : HeapOps H} (cl : CodeLaws ops) {s t t1 : St H} {D : FDesc}
+    {R : List FDesc} {op : Op} (hw : WFS cl s (D :: R)) (htr : Trace ops D.base s t)
+    (hr : readOpcode ops t = .ok (op, t1)) (hop : op = .ret ∨ op = .tcallAcc)
+    (hb : FrameBase t D.base) :
+    WFS cl t (D :: R) ∧ t.stack.cellAt (t.bp + 2) = D.sep ∧ t.stack.cellAt (t.bp + 3) = D.sip ∧
+      t.stack.cellAt (t.bp + 4) = .basePtr D.sbp := by
+  obtain ⟨P', hw'⟩ := htr.stable [] D R rfl hw
+  obtain ⟨hP, h2, h3, h4⟩ := header_of_base hw' hr hop hb
+  subst hP
+  exact ⟨hw', h2, h3, h4⟩
+
+/-- the callee's prologue: `ENTER`, or `VARARG; ENTER` -/
+inductive Prologue (ops : HeapOps H) : St H → St H → Prop
+  | enter {u u1 s' : St H} : readOpcode ops u = .ok (.enter, u1) → step ops u = .ok (s', false) →
+      Prologue ops u s'
+  | vararg {u u1 v v1 s' : St H} : readOpcode ops u = .ok (.varArg, u1) → step ops u = .ok (v, false) →
+      readOpcode ops v = .ok (.enter, v1) → step ops v = .ok (s', false) → Prologue ops u s'
+
+/-- `n` iterations of a loop of tail calls in the frame that starts at `base`: an arbitrary body
+    (a `Trace` that never returns from the frame), then a TCALL of a closure executed in that frame,
+    then the callee's prologue — `n` times. Self- or mutual recursion, any arities. -/
+inductive TailLoop (ops : HeapOps H) (base : Nat) : Nat → St H → St H → Prop
+  | zero (s : St H) : TailLoop ops base 0 s s
+  | succ {n : Nat} {s t t1 u s' s'' : St H} {lam env : Nat} :
+      Trace ops base s t → readOpcode ops t = .ok (.tcallAcc, t1) → FrameBase t base →
+      ops.callee t.heap t.acc = .closure lam env → step ops t = .ok (u, false) → Prologue ops u s' →
+      TailLoop ops base n s' s'' → TailLoop ops base (n + 1) s s''
+
+/-- a state at the head of a procedure body in the frame that starts at `base`: no temporaries -/
+def AtHead (s : St H) (base : Nat) : Prop := s.stack.sp = s.bp + 4 ∧ FrameBase s base
+
+/-- **T04.5**: by induction on the number of iterations — after any number of tail calls the
+    machine is again at a procedure head in the *same* frame slot: same list of frames (`D :: R`,
+    so the same return address, saved `ep` and `bp`, and the same number of frames), the frame
+    starts at the same index. -/
+theorem tail_loop_same_frame {ops : HeapOps H} (cl : CodeLaws ops) {D : FDesc} {R : List FDesc} :
+    ∀ {n : Nat} {s s' : St H}, TailLoop ops D.base n s s' → WFS cl s (D :: R) → AtHead s D.base →
+      WFS cl s' (D :: R) ∧ AtHead s' D.base := by
+  intro n s s' hl
+  induction hl with
+  | zero s => intro hw hh; exact ⟨hw, hh⟩
+  | @succ n s t t1 u s1 s2 lam env htr hr hb hc hst hpro _ ih =>
+    intro hw _
+    obtain ⟨hwt, _⟩ := frame_header_intact_at_tcall cl hw htr hr (.inr rfl) hb
+    have hwu := tcall_closure_desc hwt hr hc hst
+    cases hpro with
+    | enter he hse =>
+      obtain ⟨hw1, hsp, hfb⟩ := enter_desc hwu he hse
+      exact ih hw1 ⟨hsp, hfb⟩
+    | vararg hv hsv he hse =>
+      have hwv := vararg_desc hwu hv hsv
+      obtain ⟨hw1, hsp, hfb⟩ := enter_desc hwv he hse
+      exact ih hw1 ⟨hsp, hfb⟩
+
+/-- hence `sp` at every entry of the loop head is a function of where the frame starts and of the
+    head's arity only — not of the number of iterations: the high-water mark of an `n`-iteration
+    loop is independent of `n`. -/
+theorem tail_loop_sp {ops : HeapOps H} (cl : CodeLaws ops) {D : FDesc} {R : List FDesc} {n : Nat}
+    {s s' : St H} (hl : TailLoop ops D.base n s s') (hw : WFS cl s (D :: R)) (hh : AtHead s D.base) :
+    ∃ arity, s'.stack.cellAt (s'.bp + 1) = .argc arity ∧ s'.stack.sp = D.base + arity + 3 := by
+  obtain ⟨_, hsp, ar, hA, hle, hb⟩ := tail_loop_same_frame cl hl hw hh
+  exact ⟨ar, hA, by omega⟩
+
+/-! ### non-vacuity: `λ3 = ENTER; PUSHIMM argc0; MOVIMM c5 acc; TCALL; RET` (`c5` the closure of
+`λ3`) called from entry code (`Lemmas/StackWFToy.lean`): every hypothesis of the loop theorem is
+satisfied by this concrete verified program, for two iterations of the loop -/
+
+section
+open Marwood.Vm.Toy
+
+theorem toy_no_cont (s : St Unit) : ∀ c, Toy.ops.callee s.heap s.acc ≠ .continuation c := by
+  intro c h
+  simp only [Toy.ops] at h
+  split at h <;> cases h
+
+/-- the frame of `λ3` starts at stack index 1 and returns into the entry code -/
+def toyD : FDesc := ⟨1, .envPtr usizeMax, .instrPtr 4 6, 0⟩
+
+/-- the WF invariant at the loop head (state 4: after `PUSHIMM; MOVIMM; CALL; ENTER`), with the
+    frame description the CALL created — by `call_closure_desc` / `enter_desc` from the verified
+    initial state -/
+theorem toy_head_wf : ∃ R, WFS Toy.laws (nth 4) (toyD :: R) := by
+  have h0 := Toy.wf_start4
+  obtain ⟨K2, w2⟩ := runK_wf 2 (prepare Toy.idle 4) (nth 2) [] h0 (by rfl)
+  obtain ⟨m, hm, w3⟩ := call_closure_desc (lam := 3) (env := 0) w2 (s1 := { nth 2 with ipO := 6 }) (by rfl)
+    (by rfl) (s' := nth 3) (by rfl)
+  have em : m = 0 := by
+    have : (nth 2).stack.cellAt (nth 2).stack.sp = .argc 0 := by rfl
+    rw [this] at hm; cases hm; rfl
+  subst em
+  exact ⟨K2, (enter_desc (D := toyD) (R := K2) w3 (s1 := { nth 3 with ipO := 1 }) (by rfl) (s' := nth 4) (by rfl)).1⟩
+
+theorem toy_iteration (k : Nat) (hk : k = 4 ∨ k = 8) {n : Nat} {s'' : St Unit}
+    (rest : TailLoop Toy.ops 1 n (nth (k + 4)) s'') : TailLoop Toy.ops 1 (n + 1) (nth k) s'' := by
+  rcases hk with rfl | rfl
+  · exact TailLoop.succ (t := nth 6) (t1 := { nth 6 with ipO := 7 }) (u := nth 7) (lam := 3) (env := 0)
+      (.cons (toy_no_cont _) (s1 := nth 5) (by rfl) (by decide)
+        (.cons (toy_no_cont _) (s1 := nth 6) (by rfl) (by decide) (.nil _)))
+      (by rfl) ⟨0, by rfl, by decide, by rfl⟩ (by rfl) (by rfl)
+      (.enter (u1 := { nth 7 with ipO := 1 }) (by rfl) (by rfl)) rest
+  · exact TailLoop.succ (t := nth 10) (t1 := { nth 10 with ipO := 7 }) (u := nth 11) (lam := 3) (env := 0)
+      (.cons (toy_no_cont _) (s1 := nth 9) (by rfl) (by decide)
+        (.cons (toy_no_cont _) (s1 := nth 10) (by rfl) (by decide) (.nil _)))
+      (by rfl) ⟨0, by rfl, by decide, by rfl⟩ (by rfl) (by rfl)
+      (.enter (u1 := { nth 11 with ipO := 1 }) (by rfl) (by rfl)) rest
+
+/-- two iterations of the loop, and the theorem's conclusion for them: still the frame `toyD`, still
+    at `sp = 4` -/
+example : TailLoop Toy.ops toyD.base 2 (nth 4) (nth 12) ∧
+    ∃ R, (WFS Toy.laws (nth 12) (toyD :: R) ∧ AtHead (nth 12) toyD.base) := by
+  have hl : TailLoop Toy.ops toyD.base 2 (nth 4) (nth 12) :=
+    toy_iteration 4 (.inl rfl) (toy_iteration 8 (.inr rfl) (.zero _))
+  obtain ⟨R, hw⟩ := toy_head_wf
+  exact ⟨hl, R, tail_loop_same_frame Toy.laws hl hw ⟨by rfl, 0, by rfl, by decide, by rfl⟩⟩
+
+example : (runK 4 (prepare Toy.idle 4)).map (·.stack.sp) = some 4 ∧
+    (runK 8 (prepare Toy.idle 4)).map (·.stack.sp) = some 4 ∧
+    (runK 400 (prepare Toy.idle 4)).map (·.stack.sp) = some 4 := by decide +kernel
+
+end
 
 end Marwood.Proofs.C04
